@@ -906,3 +906,178 @@ def _traversal(ctx, rep, rule):
     rep.check(okd, rule, "iterate_jobs visits every member", pub.qualname,
               "delegations: %s" % [(T.show(y.data['val'], 3), [(T.show(k, 2), v) for k, v in y.st.facts.items()]) for y in dele],
               "some members are not visited")
+
+
+# ==================================================================== C18
+def surgery(ctx, rep, r1, r2, r3):
+    r = ctx.roles
+    p = ctx.prog
+    JOB = T.mk(('var', 'job'))
+    # ---------------- keep_only / keep_only_between: closedness restored, documented set terms
+    for name in ('keep_only', 'keep_only_between'):
+        f = p.supplier(r.sched, name)
+        if f is None:
+            rep.error(r1, "%s not found" % name)
+            continue
+        an, ip, out = ctx.explore(f, model=GraphModel)
+        fn = f.qualname
+        stores = [e for e in an.events('STORE') if e.data['attr'] == 'jobs' and e.data['obj'] == T.SELF]
+        rep.need(r3 + ":" + name, len(stores), 1, "stores to the member set")
+        sani = [e for e in an.events('CALL') if e.data['meth'] == 'sanitize' and e.data['recv'] == T.SELF]
+        # sanitize post-dominates the narrowing: every normal end was preceded by it
+        narrowed_lines = {e.node.lineno for e in stores}
+        for st in out.nxt + [x[0] for x in out.ret]:
+            tr = [t for t in st.trace]
+            rep.check(bool(sani) and all(s.node.lineno > max(narrowed_lines) for s in sani[-1:]), r1,
+                      "%s sanitizes after narrowing the member set" % fn, fn,
+                      "no call of self.sanitize() after the last store to self.jobs",
+                      "kept jobs still require dropped jobs: the scheduler is no longer closed and cannot run")
+        if name == 'keep_only':
+            prm = f.params[1] if len(f.params) > 1 else None
+            P = T.mk(('var', prm))
+            for e in stores:
+                v = e.data['val']
+                ok = v[0] == 'binop' and v[1] == 'BitAnd' and MEMBERS in (v[2], v[3]) and \
+                    strip_coll([x for x in (v[2], v[3]) if x != MEMBERS][0] if MEMBERS in (v[2], v[3]) else v) == P
+                rep.check(ok, r3, "%s keeps exactly the members mentioned" % e.where, fn,
+                          "self.jobs becomes %s" % T.show(v, 4),
+                          "keep_only(R) does not keep exactly the members of R")
+        else:
+            S = T.mk(('call', 'set', (('var', 'starts'),), ()))
+            E = T.mk(('call', 'set', (('var', 'ends'),), ()))
+
+            def side(term, meth, arg):
+                if term == MEMBERS:
+                    return 'all'
+                if term[0] == 'mcall' and term[1] == T.SELF and term[2] == meth and len(term[3]) == 1 \
+                        and term[3][0][0] == 'star' and term[3][0][1] == arg:
+                    return 'closure'
+                return None
+            for e in stores:
+                v = e.data['val']
+                items = T.union_items(v)
+                core = [i for i in items if i[0] == 'binop' and i[1] == 'BitAnd']
+                Sx = e.st.var(e.fr.fid, 'starts')
+                Ex = e.st.var(e.fr.fid, 'ends')
+                ok = len(core) == 1 and Sx is not None and Ex is not None
+                why = "self.jobs becomes %s" % T.show(v, 5)
+                if ok:
+                    c = core[0]
+                    d = side(c[2], 'successors_downstream', Sx) and side(c[3], 'predecessors_upstream', Ex)
+                    d2 = side(c[3], 'successors_downstream', Sx) and side(c[2], 'predecessors_upstream', Ex)
+                    down, up = (c[2], c[3]) if d else (c[3], c[2])
+                    ok = bool(d or d2)
+                    if ok:
+                        sd = side(down, 'successors_downstream', Sx)
+                        su = side(up, 'predecessors_upstream', Ex)
+                        ts, te = e.st.facts.get(Sx), e.st.facts.get(Ex)
+                        ok = (sd == 'closure') == (ts is True) if ts is not None else True
+                        ok = ok and ((su == 'closure') == (te is True) if te is not None else True)
+                        if not ok:
+                            why += " with starts %s and ends %s" % ("given" if ts else "empty", "given" if te else "empty")
+                    rest = set(items) - set(core)
+                    ok = ok and rest <= {Sx, Ex}
+                rep.check(ok, r3, "%s member set = downstream(starts) & upstream(ends) (+starts, +ends)" % e.where, fn, why,
+                          "keep_only_between keeps another subset than the documented one", trace(e.st))
+            ups = [e for e in an.events('CALL') if e.data['meth'] == 'update' and e.data['recv'] != T.SELF]
+            seen = set()
+            for e in ups:
+                a = e.data['args'][0] if e.data['args'] else None
+                Sx = e.st.var(e.fr.fid, 'starts')
+                Ex = e.st.var(e.fr.fid, 'ends')
+                ks = e.st.facts.get(T.mk(('var', 'keep_starts')))
+                ke = e.st.facts.get(T.mk(('var', 'keep_ends')))
+                if a == Sx and Sx == Ex:
+                    # both milestones defaulted to the same empty set: either flag explains the update
+                    seen.add('starts' if ks else 'ends')
+                    ok = ks is True or ke is True
+                elif a == Sx:
+                    seen.add('starts')
+                    ok = ks is True
+                elif a == Ex:
+                    seen.add('ends')
+                    ok = ke is True
+                else:
+                    ok = False
+                rep.check(ok, r3, "%s milestones added back under their own flag" % e.where, fn,
+                          "`%s` with keep_starts=%s keep_ends=%s" % (src(stmt_of(e.node)), ks, ke),
+                          "keep_starts / keep_ends add back the wrong milestones", trace(e.st))
+            rep.check(seen == {'starts', 'ends'}, r3, "%s both keep flags honoured" % fn, fn,
+                      "milestones added back: %s" % sorted(seen), "a keep flag has no effect")
+    # ---------------- bypass_and_remove
+    f = p.supplier(r.sched, 'bypass_and_remove')
+    if f is None:
+        rep.error(r2, "bypass_and_remove not found")
+        return
+    an, ip, out = ctx.explore(f, model=GraphModel)
+    fn = f.qualname
+    prm = f.params[1]
+    J = T.mk(('var', prm))
+    notin = T.mk(('cmp', 'not in', J, MEMBERS))
+    isin = T.mk(('cmp', 'in', J, MEMBERS))
+    raises = an.events('RAISE')
+    okr = any(e.data['exc'][1] == 'ValueError' and (e.st.facts.get(notin) is True or e.st.facts.get(isin) is False)
+              for e in raises)
+    rep.check(okr, r2, "%s refuses a job that is not a member" % fn, fn,
+              "no `raise ValueError` under `job not in self.jobs`",
+              "bypassing a non-member silently rewires requirements")
+    muts = an.events('MUT') + [e for e in an.events('STORE') if e.data['attr'] in ('jobs', 'required')]
+    calls = [e for e in an.events('CALL') if e.data['meth'] in ('requires', '_add_one_requirement')]
+    for e in muts + calls:
+        guarded = e.st.facts.get(notin) is False or e.st.facts.get(isin) is True
+        rep.check(guarded, r2, "%s no mutation before the membership test" % e.where, fn,
+                  "`%s` reachable without the membership test" % src(stmt_of(e.node)),
+                  "a refused bypass has already modified the graph", trace(e.st))
+    DOWN = None
+    for e in calls:
+        recv = e.data['recv']
+        if recv[0] == 'elem':
+            DOWN = recv[1]
+    okdown = False
+    if DOWN is not None:
+        c = strip_coll(DOWN)
+        if c[0] == 'comp' and len(c[3]) == 1 and strip_coll(c[3][0][1]) == MEMBERS:
+            el = T.mk(('elem', c[3][0][1], c[3][0][0]))
+            okdown = c[2] == el and list(c[3][0][2]) == [T.mk(('cmp', 'in', J, ('attr', el, 'required')))]
+    rep.check(okdown, r2, "%s downstreams = members that require the job" % fn, fn,
+              "relinking ranges over %s" % (T.show(DOWN, 4) if DOWN is not None else None),
+              "some jobs that required the bypassed job are not re-linked")
+    UP = T.mk(('attr', J, 'required'))
+    rep.need(r2, len(calls), 1, "relinking calls")
+    for e in calls:
+        recv = e.data['recv']
+        arg = e.data['args'][0] if e.data['args'] else None
+        ok = recv[0] == 'elem' and recv[1] == DOWN and arg is not None and arg[0] == 'elem' and strip_coll(arg[1]) == UP \
+            and not any(c.conds for c in e.loops)
+        conds = [k for k, v in e.st.facts.items() if (T.contains(k, recv) or (arg is not None and T.contains(k, arg)))
+                 and k not in (DOWN, UP, arg[1] if arg is not None and arg[0] == 'elem' else None)]
+        rep.check(ok and not conds, r2, "%s every downstream requires every upstream" % e.where, fn,
+                  "`%s`: %s.requires(%s)%s" % (src(stmt_of(e.node)), T.show(recv, 3), T.show(arg, 3) if arg is not None else None,
+                                               " under %s" % [T.show(c, 3) for c in conds] if conds else ""),
+                  "a path through the bypassed job is not re-linked (or is re-linked backwards)", trace(e.st))
+        from ..flow import _may_stop_early
+        for c in e.loops:
+            if c.kind == 'for':
+                rep.check(not _may_stop_early(c.node), r2, "%s:%d relinking loop runs to its end"
+                          % (f.module.relpath, c.node.lineno), fn, "loop `for %s in %s` can stop early"
+                          % (src(c.node.target), src(c.node.iter)), "some paths through the job are not re-linked")
+    rem_req = [e for e in an.events('MUT') if e.data['attr'] == 'required' and e.data['how'] in ('remove', 'discard')]
+    okrem = any(e.data['obj'][0] == 'elem' and e.data['obj'][1] == DOWN and e.data['args'] == (J,)
+                and not e.data['conds'] for e in rem_req)
+    rep.check(okrem, r1, "%s the job is dropped from the requirements of its downstreams" % fn, fn,
+              "removals from `required`: %s" % [(T.show(e.data['obj'], 3), [T.show(a, 2) for a in e.data['args']]) for e in rem_req],
+              "remaining jobs still require the removed job: the scheduler is no longer closed")
+    rem_job = [e for e in an.events('MUT') if e.data['attr'] == 'jobs' and e.data['obj'] == T.SELF]
+    okj = any(e.data['how'] in ('remove', 'discard') and e.data['args'] == (J,) for e in rem_job)
+    rep.check(okj, r2, "%s the job leaves the member set" % fn, fn,
+              "mutations of self.jobs: %s" % [(e.data['how'], [T.show(a, 2) for a in e.data['args']]) for e in rem_job],
+              "the bypassed job is still a member")
+    for e in an.events('MUT'):
+        if e.data['how'] in ('remove', 'discard', 'clear', 'difference_update', 'intersection_update'):
+            legit = (e.data['attr'] == 'jobs' and e.data['obj'] == T.SELF and e.data['args'] == (J,)) or \
+                    (e.data['attr'] == 'required' and e.data['args'] == (J,))
+            rep.check(legit, r2, "%s nothing else is removed" % e.where, fn,
+                      "`%s`" % src(stmt_of(e.node)), "bypass_and_remove removes more than the job and its edges",
+                      trace(e.st))
+    # the raw remove() is the documented low-level operation: exempt, with that reason
+    rep.note("PureScheduler.remove is the documented raw set operation (no sanitize): exempt from R18.1")
